@@ -324,6 +324,15 @@ struct World
         ++effective;
       check_all_levels(op.name);
       check_sinks_unchanged(op.name, -1);
+      {
+        std::string st;
+        for (int lv : model.level)
+          st.push_back(static_cast<char>('0' + lv));
+        for (Obj const &ob : objs)
+          if (ob.o)
+            st += path_str(ob.path);
+        ctx.state(st);
+      }
       ctx.end_op();
     }
     {
